@@ -17,7 +17,9 @@ KeysU == 1..N
 Probe == 0..(N+1)                       \* lookup keys incl. absent ones below / above everything
 AllOps == {[op |-> "insert", k |-> k, v |-> v] : k \in KeysU, v \in Vals}
           \cup {[op |-> x, k |-> k, v |-> 0] : x \in {"remove", "get", "find", "contains", "next", "prev"}, k \in Probe}
-          \cup {[op |-> x, k |-> 0, v |-> 0] : x \in {"min", "max", "len", "clear"}}
+          \cup {[op |-> x, k |-> 0, v |-> 0] : x \in {"min", "max", "len", "clear", "is_empty"}}
+          \cup {[op |-> "get_mut", k |-> k, v |-> v] : k \in Probe, v \in Vals}
+          \cup {[op |-> "index_mut", k |-> k, v |-> v] : k \in KeysU, v \in Vals}
 
 VARIABLES mode, t, ok, depth
 mvars == <<mode, t, ok, depth>>
